@@ -225,6 +225,10 @@ def same(a, b):
         return a == b or (a != a and b != b)
     if a is b:
         return True
+    if hasattr(a, "statements") and hasattr(a, "description"):
+        # models compare equal whatever their name and description: a task must get ITS model, not an equal twin
+        if getattr(a, "name", None) != getattr(b, "name", None) or a.description != b.description:
+            return False
     try:
         return bool(a == b)
     except Exception:
@@ -272,6 +276,9 @@ def gen_static(rng, names, depth=0):
         return ["tuple", [gen_static(rng, names, depth + 1) for _ in range(n)]]
     if r < 0.96:
         return ["fset", rng.sample([1, 2, 3, 5], rng.choice([0, 1, 2]))]
+    if rng.random() < 0.6:
+        # candidate twins: different objects that are == (and hash alike) but carry another name / description
+        return ["model", rng.choice([1, 2, 3])]
     return ["model"]
 
 
@@ -300,7 +307,13 @@ def materialize(d, env=None):
     if k == "fset":
         return frozenset(d[1])
     if k == "model":
-        return (env or {}).get("model", "<model>")
+        m = (env or {}).get("model", "<model>")
+        if len(d) > 1 and hasattr(m, "replace"):
+            tw = (env or {}).setdefault("model_twins", {})
+            if d[1] not in tw:
+                tw[d[1]] = m.replace(name=f"cand{d[1]}", description=f"candidate number {d[1]}")
+            return tw[d[1]]
+        return m
     if k == "callable":
         return {"len": len, "sorted": sorted}[d[1]]
     raise ValueError(d)
@@ -689,6 +702,17 @@ def delta_sets(plan):
     p = copy.deepcopy(plan)
     for s in p["specs"].values():
         s["static"] = [_fill_sets(d) for d in s["static"]]
+    return p
+
+
+def inject_model_twins(rng, plan):
+    """Two tasks get different model twins (== and hash alike, other name / description) as first static input."""
+    p = copy.deepcopy(plan)
+    sh = final_shadow(p)
+    ts = rng.sample(list(sh.order), min(2, len(sh.order)))
+    for k, t in enumerate(ts):
+        if t in p["specs"]:
+            p["specs"][t]["static"] = [["model", k + 1]] + list(p["specs"][t]["static"])
     return p
 
 
